@@ -19,17 +19,26 @@ def prepare(scratch):
         return dst
     os.makedirs(dst, exist_ok=True)
     subprocess.run(["rsync", "-a", "--exclude", "target", "--exclude", ".git", REPO + "/", dst + "/"], check=True)
-    tgt = os.path.join(dst, "crates/erbium-core/src/dhcp/pool.rs")
-    shutil.copy(os.path.join(VERIF, "bounded", "pool_sql.rs"), os.path.join(dst, "crates/erbium-core/src/dhcp/verif_sql.rs"))
-    with open(tgt, "a") as fh:
-        fh.write("\n#[cfg(test)]\n#[path = \"verif_sql.rs\"]\nmod verif_sql;\n")
+    for src, host, mod in MODULES.values():
+        tgt = os.path.join(dst, host)
+        shutil.copy(os.path.join(VERIF, "bounded", src), os.path.join(os.path.dirname(tgt), mod + ".rs"))
+        with open(tgt, "a") as fh:
+            fh.write("\n#[cfg(test)]\n#[path = \"%s.rs\"]\nmod %s;\n" % (mod, mod))
     return dst
 
 
-def run(scratch, rows, timeout=1500):
+# bounded modules: name -> (file under /verif/bounded, host source file it becomes a #[cfg(test)] child module of, module name)
+MODULES = {
+    "pool": ("pool_sql.rs", "crates/erbium-core/src/dhcp/pool.rs", "verif_sql"),
+    "opts": ("dhcp_opts.rs", "crates/erbium-core/src/dhcp/dhcppkt.rs", "verif_opts"),
+    "routes": ("dns_routes.rs", "crates/erbium-core/src/dns/config.rs", "verif_routes"),
+}
+
+
+def run(scratch, rows, timeout=1500, module="pool"):
     dst = prepare(scratch)
     env = dict(os.environ, CARGO_NET_OFFLINE="true", VERIF_ROWS=str(rows))
-    cmd = ["cargo", "test", "-p", "erbium-core", "--offline", "--lib", "verif_sql", "--", "--nocapture", "--test-threads", "1"]
+    cmd = ["cargo", "test", "-p", "erbium-core", "--offline", "--lib", MODULES[module][2], "--", "--nocapture", "--test-threads", "1"]
     t0 = time.time()
     try:
         p = subprocess.run(cmd, cwd=dst, env=env, capture_output=True, text=True, timeout=timeout)
@@ -55,7 +64,10 @@ def run(scratch, rows, timeout=1500):
 
 def run_task(pid, task, tier, scratch, seed):
     rows = task.get("rows_thorough", 3) if tier == "thorough" else task.get("rows_quick", 2)
-    r = run(scratch, rows)
+    module = task.get("module", "pool")
+    r = run(scratch, rows, module=module)
+    if module != "pool":
+        return other_module(task, module, r)
     out = dict(task="sql:pool", engine="bounded(cargo test on real SQLite)", status="ok", undecided_reason="", obligations=[], failures=[],
                assumptions=[], trusted_base=["SQLite (bundled with rusqlite) as the reference semantics of the SQL statements"],
                functions_under_contract=[], rewrites=[], samples=[], checker_cmd="VERIF_ROWS=%d %s" % (rows, r["cmd"]), solver_ms=0, canaries=0,
@@ -79,6 +91,34 @@ def run_task(pid, task, tier, scratch, seed):
         for w in r["fails"].get(name, [])[:3]:
             out["failures"].append(dict(fn=name, obligation="sqlB::" + name, engine="engine B (real SQLite)", message="contract violated on the real code", text="", clause=None,
                                         witness=w, replayed=True, rendered=w, replay_output="\n".join(r["fails"].get(name, [])), origin="crates/erbium-core/src/dhcp/pool.rs"))
+    if out["failures"]:
+        out["status"] = "violation"
+    return out
+
+
+def other_module(task, module, r):
+    """a bounded module other than the SQL one: same VERIF-B protocol, its own description"""
+    src, host, mod = MODULES[module]
+    out = dict(task="bounded:" + module, engine="bounded(cargo test of the real code)", status="ok", undecided_reason="", obligations=[], failures=[],
+               assumptions=[], trusted_base=[], functions_under_contract=[], rewrites=[], samples=[], checker_cmd=r["cmd"], solver_ms=0, canaries=0,
+               bounded=dict(engine="B", module=src, domain=task.get("domain", ""), exhaustive=True, checks={}))
+    if not r["checks"]:
+        out["status"] = "undecided"
+        out["undecided_reason"] = "engine B produced no result (build failure or time-out): " + r["out"][-600:]
+        return out
+    if r["rc"] != 0 and not any(nf for (_ev, nf) in r["checks"].values()):
+        out["status"] = "undecided"
+        out["undecided_reason"] = "engine B test module did not finish (exit %s): %s" % (r["rc"], r["out"][-600:])
+    want = task.get("checks")
+    for name, (ev, nf) in r["checks"].items():
+        if want and not any(name.startswith(w) for w in want):
+            continue
+        out["bounded"]["checks"][name] = dict(evaluations=ev, failures=nf)
+        out["obligations"].append(dict(name="B::" + name, ok=nf == 0, kind="bounded", origin=host, ms=0))
+        out["samples"].append("B::%s evaluations=%d failures=%d (bounded)" % (name, ev, nf))
+        for w in r["fails"].get(name, [])[:3]:
+            out["failures"].append(dict(fn=name, obligation="B::" + name, engine="engine B (real code)", message="contract violated on the real code", text="", clause=None,
+                                        witness=w, replayed=True, rendered=w, replay_output="\n".join(r["fails"].get(name, [])), origin=host))
     if out["failures"]:
         out["status"] = "violation"
     return out
